@@ -1,9 +1,13 @@
 package main
 
 import (
+	"bytes"
 	"encoding/json"
 	"fmt"
+	"go/token"
 	"strings"
+
+	"github.com/dave/dst/decorator/resolver/guess"
 
 	"github.com/dave/dst"
 	"github.com/dave/dst/decorator"
@@ -229,46 +233,152 @@ func c05Check(in c05Input) (key, what string) {
 	return "", ""
 }
 
-// expression lists: NewLine on every element splits the list one element per line
-func c05ExprCheck(kind string, n int) (key, what string) {
-	var src string
+// expression-level lists (call arguments, composite literal elements, parameters): element
+// i+1 starts on a new line iff After of i or Before of i+1 asks for a line break, and the first
+// element is on a new line iff its Before does; with NewLine everywhere the list is one per
+// line.  "managed": the elements are qualified identifiers restored with import management
+// (the hand-written restoreIdent path); they must lay out exactly like plain selectors.
+type c05ExprInput struct {
+	Exprlist string `json:"exprlist"` // call lit param
+	Before   []int  `json:"before"`   // 0 None, 1 NewLine
+	After    []int  `json:"after"`
+	Managed  bool   `json:"managed"`
+}
+
+func c05ExprElems(in c05ExprInput) (*dst.File, []dst.Node, error) {
+	n := len(in.Before)
 	var args []string
 	for i := 0; i < n; i++ {
-		args = append(args, fmt.Sprintf("e%d", i))
+		switch {
+		case in.Exprlist == "param":
+			args = append(args, fmt.Sprintf("e%d int", i))
+		case in.Managed:
+			args = append(args, fmt.Sprintf("pk.E%d", i))
+		default:
+			args = append(args, fmt.Sprintf("e%d", i))
+		}
 	}
-	if kind == "call" {
-		src = "package a\n\nvar x = f(" + strings.Join(args, ", ") + ")\n"
+	var src string
+	imp := ""
+	if in.Managed {
+		imp = "import \"example.com/pk\"\n\n"
+	}
+	switch in.Exprlist {
+	case "call":
+		src = "package a\n\n" + imp + "var x = f(" + strings.Join(args, ", ") + ")\n"
+	case "lit":
+		src = "package a\n\n" + imp + "var x = []int{" + strings.Join(args, ", ") + "}\n"
+	default:
+		src = "package a\n\nfunc f(" + strings.Join(args, ", ") + ") {}\n"
+	}
+	var f *dst.File
+	var err error
+	if in.Managed {
+		dec := decorator.NewDecoratorWithImports(token.NewFileSet(), "example.com/a", goastNew())
+		f, err = dec.Parse(src)
 	} else {
-		src = "package a\n\nvar x = []int{" + strings.Join(args, ", ") + "}\n"
+		f, err = decorator.Parse(src)
 	}
-	f, err := decorator.Parse(src)
 	if err != nil {
-		return "c05-template", err.Error()
+		return nil, nil, err
 	}
-	v := f.Decls[0].(*dst.GenDecl).Specs[0].(*dst.ValueSpec).Values[0]
-	var els []dst.Expr
-	if kind == "call" {
-		els = v.(*dst.CallExpr).Args
+	var els []dst.Node
+	last := f.Decls[len(f.Decls)-1]
+	switch in.Exprlist {
+	case "call":
+		for _, e := range last.(*dst.GenDecl).Specs[0].(*dst.ValueSpec).Values[0].(*dst.CallExpr).Args {
+			els = append(els, e)
+		}
+	case "lit":
+		for _, e := range last.(*dst.GenDecl).Specs[0].(*dst.ValueSpec).Values[0].(*dst.CompositeLit).Elts {
+			els = append(els, e)
+		}
+	default:
+		for _, e := range last.(*dst.FuncDecl).Type.Params.List {
+			els = append(els, e)
+		}
+	}
+	for i, e := range els {
+		e.Decorations().Before = dst.SpaceType(in.Before[i])
+		e.Decorations().After = dst.SpaceType(in.After[i])
+	}
+	return f, els, nil
+}
+
+func c05ExprPrint(in c05ExprInput) (string, string) {
+	f, els, err := c05ExprElems(in)
+	if err != nil || len(els) != len(in.Before) {
+		return "", "template: " + fmt.Sprint(err)
+	}
+	var out string
+	var pm string
+	if in.Managed {
+		pm = safely(func() {
+			var buf bytes.Buffer
+			r := decorator.NewRestorerWithImports("example.com/a", guess.New())
+			err = r.Fprint(&buf, f)
+			out = buf.String()
+		})
 	} else {
-		els = v.(*dst.CompositeLit).Elts
+		out, err, pm = printDst(f)
 	}
-	for _, e := range els {
-		e.Decorations().Before = dst.NewLine
-		e.Decorations().After = dst.NewLine
-	}
-	out, err, pm := printDst(f)
 	if pm != "" || err != nil {
-		return "c05-panic", fmt.Sprintf("print failed: %v %s", err, pm)
+		return "", fmt.Sprintf("print failed: %v %s", err, pm)
 	}
-	for i := 0; i < n; i++ {
-		found := false
-		for _, l := range strings.Split(out, "\n") {
-			if strings.TrimSpace(l) == fmt.Sprintf("e%d,", i) {
-				found = true
+	return out, ""
+}
+
+func c05ExprCheck(in c05ExprInput) (key, what string) {
+	out, bad := c05ExprPrint(in)
+	if bad != "" {
+		return "c05-panic", bad
+	}
+	n := len(in.Before)
+	lines := strings.Split(out, "\n")
+	lineOf := func(i int) int {
+		w := fmt.Sprintf("e%d", i)
+		if in.Managed {
+			w = fmt.Sprintf("pk.E%d", i)
+		}
+		for li, l := range lines {
+			if idx := strings.Index(l, w); idx >= 0 {
+				end := idx + len(w)
+				if end == len(l) || !(l[end] >= '0' && l[end] <= '9') {
+					return li
+				}
 			}
 		}
-		if !found {
-			return "c05-exprlist", fmt.Sprintf("%s with NewLine on every element: element %d is not on its own line\n%s", kind, i, out)
+		return -1
+	}
+	openLine := -1
+	for li, l := range lines {
+		if strings.Contains(l, "f(") || strings.Contains(l, "[]int{") {
+			openLine = li
+		}
+	}
+	for i := 0; i < n; i++ {
+		if lineOf(i) < 0 {
+			return "c05-lost", fmt.Sprintf("element %d not found:\n%s", i, out)
+		}
+	}
+	if (lineOf(0) > openLine) != (in.Before[0] == 1) {
+		return "c05-exprlist", fmt.Sprintf("%s list %v: first element Before=%d but it is on line %d, the opening delimiter on line %d\n%s", in.Exprlist, in, in.Before[0], lineOf(0), openLine, out)
+	}
+	for i := 0; i+1 < n; i++ {
+		want := in.After[i] == 1 || in.Before[i+1] == 1
+		if got := lineOf(i+1) > lineOf(i); got != want {
+			return "c05-exprlist", fmt.Sprintf("%s list (managed=%v): elements %d/%d with After=%d Before=%d: line break %v, want %v\n%s", in.Exprlist, in.Managed, i, i+1, in.After[i], in.Before[i+1], got, want, out)
+		}
+	}
+	if in.Managed {
+		plain := in
+		plain.Managed = false
+		pout, bad := c05ExprPrint(plain)
+		if bad == "" {
+			a := strings.ReplaceAll(strings.ReplaceAll(out, "import \"example.com/pk\"\n\n", ""), "pk.E", "e")
+			if a != pout {
+				return "c05-managed", fmt.Sprintf("qualified identifiers restored with import management lay out differently from plain expressions with the same spacing:\n%s\nvs\n%s", out, pout)
+			}
 		}
 	}
 	return "", ""
@@ -324,11 +434,29 @@ func c05Prop(c *Ctx) {
 			run(in)
 		}
 	}
-	for _, k := range []string{"call", "lit"} {
-		for n := 1; n <= 4; n++ {
-			c.Res.Evaluations++
-			if key, what := c05ExprCheck(k, n); key != "" {
-				c.Res.fail(key, what, map[string]interface{}{"exprlist": k, "n": n})
+	for _, k := range []string{"call", "lit", "param"} {
+		for _, managed := range []bool{false, true} {
+			if managed && k == "param" {
+				continue
+			}
+			for n := 1; n <= 3; n++ {
+				// exhaustive over None/NewLine on both sides of every element
+				for m := 0; m < 1<<(2*uint(n)); m++ {
+					in := c05ExprInput{Exprlist: k, Managed: managed}
+					for i := 0; i < n; i++ {
+						in.Before = append(in.Before, (m>>(2*uint(i)))&1)
+						in.After = append(in.After, (m>>(2*uint(i)+1))&1)
+					}
+					if in.After[n-1] == 1 && k == "param" {
+						continue // a line break before the closing parenthesis of a signature needs a trailing comma
+					}
+					c.Res.Evaluations++
+					c.Res.seen(fmt.Sprint(in))
+					c.Res.hist("c05-kind", fmt.Sprintf("%s managed=%v", k, managed))
+					if key, what := c05ExprCheck(in); key != "" {
+						c.Res.fail(key, what, in)
+					}
+				}
 			}
 		}
 	}
@@ -342,12 +470,9 @@ func init() {
 			key, what := c05Check(in)
 			return key != "", what
 		}
-		var e struct {
-			Exprlist string `json:"exprlist"`
-			N        int    `json:"n"`
-		}
+		var e c05ExprInput
 		if err := json.Unmarshal(raw, &e); err == nil && e.Exprlist != "" {
-			key, what := c05ExprCheck(e.Exprlist, e.N)
+			key, what := c05ExprCheck(e)
 			return key != "", what
 		}
 		return false, "unrecognised input"
